@@ -25,6 +25,8 @@ Begin ==
   /\ Is("begin")
   /\ (outcome.kind = "none" /\ l > 1) => Say("VERDICT", Trace[l - 1].t, {"Incomplete"})
   /\ imports' = [f \in Files |-> Field(Ev.imports, f, <<>>)]
+  /\ aliases' = [f \in Files |-> IF "aliases" \in DOMAIN Ev /\ f \in DOMAIN Ev.aliases THEN Ev.aliases[f]
+                                  ELSE [i \in DOMAIN Field(Ev.imports, f, <<>>) |-> ""]]
   /\ fail' = [f \in Files |-> Field(Ev.fail, f, "none")]
   /\ maxd' = Ev.maxd
   /\ retrieved' = Retrieved0 /\ gs' = Gs0 /\ reads' = Reads0 /\ outcome' = Outcome0
@@ -58,7 +60,7 @@ EvRet ==
                 \cup (IF ~Ev.ok /\ Ev.hasmodel THEN {"NoPartialModel"} ELSE {})
                 \cup (IF ClaimedDeeper THEN {"claimed-deeper"} ELSE {})
      IN Say("RET", Ev.t, bad)
-  /\ UNCHANGED <<imports, fail, maxd, retrieved, gs, reads>>
+  /\ UNCHANGED <<imports, aliases, fail, maxd, retrieved, gs, reads>>
   /\ l' = l + 1
 
 Normal == Begin \/ EvClaimed \/ EvDup \/ EvCut \/ EvRead \/ EvRet
@@ -69,7 +71,7 @@ Skip ==
   /\ Say("REJECT", Ev.t, Ev.e)
   /\ l' = Trace[Ev.b].nx
   /\ outcome' = [kind |-> "skipped", files |-> <<>>, culprits |-> {}]
-  /\ UNCHANGED <<imports, fail, maxd, retrieved, gs, reads>>
+  /\ UNCHANGED <<imports, aliases, fail, maxd, retrieved, gs, reads>>
 
 TraceNext == Normal \/ Skip
 
